@@ -238,8 +238,12 @@ def monitors(ctx, sc, res, fair, inp):
     acq_time = {}
     call_order, acq_order = [], []
     sends = {}
+    last_send = {}
     by_id = {c["id"]: c for c in sc["callers"]}
     for (ms, kind, who, payload) in tr.ev:
+        if kind == "return" and payload[0] == "none" and who in last_send and ms - last_send[who] < by_id[who]["timeout"]:
+            ctx.violation("failure-reported-early", inp, f"failure is reported only after the timeout ({by_id[who]['timeout']} ms) of the last attempt",
+                          f"caller {who}: gave up {ms - last_send[who]} ms after its last transmission")
         if kind in ("lock-free", "lock-wait"):
             call_order.append(who)
         elif kind == "acquired":
@@ -256,6 +260,11 @@ def monitors(ctx, sc, res, fair, inp):
                     ctx.violation("time-bound", inp, f"lock held at most retry x (timeout + 100 + pause) = {bound} ms", f"{ms - acq_time[who]} ms by caller {who}")
             holder = None
         elif kind == "send":
+            # one attempt at a time: the previous attempt of this call is only abandoned after its timeout has run out
+            if who in last_send and ms - last_send[who] < by_id[who]["timeout"]:
+                ctx.violation("attempt-abandoned-early", inp, f"an unanswered attempt waits its timeout ({by_id[who]['timeout']} ms) before the next one",
+                              f"caller {who}: next transmission after {ms - last_send[who]} ms")
+            last_send[who] = ms
             sends[who] = sends.get(who, 0) + 1
             if holder != who:
                 ctx.violation("send-without-lock", inp, "only the lock holder transmits", f"caller {who} sent while holder is {holder}")
